@@ -67,3 +67,46 @@ def args_attr(node):
     if isinstance(node, ast.Attribute) and isinstance(node.value, ast.Name) and node.value.id == "args":
         return node.attr
     return None
+
+
+def entry_binding(ctx, disp, branch, entry):
+    """{param name: value AST} with which the dispatch branch calls `entry`,
+    either directly or through a helper of the same module that receives the
+    function as an argument and forwards **kwargs to it.  Returns (binding,
+    call node) or (None, None)."""
+    for n in ast.walk(branch):
+        if not isinstance(n, ast.Call):
+            continue
+        tg = ctx.cg.resolve_callee(disp, n.func)
+        if entry.fq in tg:
+            bind = {}
+            for i, a in enumerate(n.args):
+                if i < len(entry.params):
+                    bind[entry.params[i]] = a
+            for k in n.keywords:
+                if k.arg:
+                    bind[k.arg] = k.value
+            return bind, n
+        for t in tg:
+            helper = ctx.cg.func(t)
+            hp = helper.params
+            passed_as = None
+            for i, a in enumerate(n.args):
+                if i < len(hp) and isinstance(a, (ast.Name, ast.Attribute)) and entry.fq in ctx.cg.resolve_callee(disp, a):
+                    passed_as = hp[i]
+            for k in n.keywords:
+                if k.arg in hp and isinstance(k.value, (ast.Name, ast.Attribute)) and entry.fq in ctx.cg.resolve_callee(disp, k.value):
+                    passed_as = k.arg
+            if passed_as is None:
+                continue
+            kwname = helper.node.args.kwarg.arg if helper.node.args.kwarg else None
+            forwards = False
+            for c in ast.walk(helper.node):
+                if isinstance(c, ast.Call) and isinstance(c.func, ast.Name) and c.func.id == passed_as:
+                    for k in c.keywords:
+                        if k.arg is None and isinstance(k.value, ast.Name) and k.value.id == kwname:
+                            forwards = True
+            if forwards:
+                bind = {k.arg: k.value for k in n.keywords if k.arg and k.arg not in hp}
+                return bind, n
+    return None, None
